@@ -99,6 +99,23 @@ func (m *meta) init() (r error) {
 	return m.behavior.Init(m)
 }
 
+// terminate invokes the Terminate callback. It is called right after the state
+// has been switched to terminated, in some cases from a deferred recover handler,
+// so a panic in the callback is recovered here: it must neither invoke the
+// callback one more time (see the recover handler in handle) nor crash the node.
+func (m *meta) terminate(reason error) {
+	if lib.Recover() {
+		defer func() {
+			if rcv := recover(); rcv != nil {
+				pc, fn, line, _ := runtime.Caller(2)
+				m.log.Panic("panic in Terminate callback of meta process %s - %#v at %s[%s:%d]", m.id,
+					rcv, runtime.FuncForPC(pc).Name(), fn, line)
+			}
+		}()
+	}
+	m.behavior.Terminate(reason)
+}
+
 func (m *meta) start() {
 	defer m.p.metas.Delete(m.id)
 
@@ -120,7 +137,7 @@ func (m *meta) start() {
 					atomic.StoreInt32(&m.state, int32(gen.MetaStateTerminated))
 					reason := gen.TerminateReasonPanic
 					m.p.node.RouteTerminateAlias(m.id, reason)
-					m.behavior.Terminate(reason)
+					m.terminate(reason)
 				}
 			}
 		}()
@@ -153,7 +170,7 @@ func (m *meta) start() {
 			reason = gen.TerminateReasonNormal
 		}
 		m.p.node.RouteTerminateAlias(m.id, reason)
-		m.behavior.Terminate(reason)
+		m.terminate(reason)
 	}
 }
 
@@ -184,7 +201,7 @@ func (m *meta) handle() {
 						m.p.node.aliases.Delete(m.id)
 						reason = gen.TerminateReasonPanic
 						m.p.node.RouteTerminateAlias(m.id, reason)
-						m.behavior.Terminate(reason)
+						m.terminate(reason)
 					}
 				}
 			}()
@@ -274,7 +291,7 @@ func (m *meta) handle() {
 			if old != int32(gen.MetaStateTerminated) || m.stopReason != nil {
 				m.p.node.aliases.Delete(m.id)
 				m.p.node.RouteTerminateAlias(m.id, reason)
-				m.behavior.Terminate(reason)
+				m.terminate(reason)
 			}
 			return
 		}
@@ -287,7 +304,7 @@ func (m *meta) handle() {
 				// so the termination must be finalized here
 				m.p.node.aliases.Delete(m.id)
 				m.p.node.RouteTerminateAlias(m.id, reason)
-				m.behavior.Terminate(reason)
+				m.terminate(reason)
 			}
 			return
 		}
